@@ -36,10 +36,12 @@ ASSUMPTIONS = ['value counts: exact while fewer distinct values than --max_uniqu
                'generated values are not expected and would be reported',
                'coverage annotation: cases whose exact mean lies within 1e-9 of a rounding tie (x.x5) are excluded and counted']
 
-POOL = ['a', 'b', 'c', 'd', '', '{}', 'NA', '0', '1', 'x y', 'é', 'a ', ' a', '12', '2', 'bc', 'A']
+_LONG_URL = 'https://shop.example.org/catalogue/category/shoes/running/men/page/'      # 68 characters shared by the long values
+POOL = ['a', 'b', 'c', 'd', '', '{}', 'NA', '0', '1', 'x y', 'é', 'a ', ' a', '12', '2', 'bc', 'A',
+        '.', 'x', 'null', '(null)', 'n.a.', 'n/a.', _LONG_URL + '1?ref=a', _LONG_URL + '2?ref=b', _LONG_URL + '1?ref=c']
 # column names one of which is a prefix of another: ('f1','12') / ('f11','2') and ('f','bc') / ('fb','c') concatenate equally
 COLNAMES = ['f1', 'f11', 'f', 'fb', 'f2', 'g 1', 'é', 'f12', 'terms AND conditions', 'a AND_REL b']
-MISSING_SETS = [',{}', 'NA', ',{},NA', 'a,b', '0', 'NA,{},NA', ',,{}', 'a,a', '', '"NA",x']   # '' = only the empty cell is missing; a symbol may carry quotes   # a symbol may be listed twice
+MISSING_SETS = [',{}', 'NA', ',{},NA', 'a,b', '0', 'NA,{},NA', ',,{}', 'a,a', '', '"NA",x', '.', '(null)', 'n.a.,NA', '{},.']     # symbols are literal strings, also when they look like regex syntax   # '' = only the empty cell is missing; a symbol may carry quotes   # a symbol may be listed twice
 
 
 @st.composite
